@@ -50,7 +50,11 @@ impl Case {
         if self.outline_tagged {
             s += &format!("{ind}{}\n", if self.tag_mode == 2 { "@o1 @o1 @o2" } else { "@o1 @o2" });
         }
-        s += &format!("{ind}Scenario Outline: n {}\n", TEMPLATES[self.name_t]);
+        // every spelling Gherkin has for an outline (a `Scenario:` / `Example:` followed by
+        // an examples block is one as well), chosen by the other coordinates of the case
+        let kw = ["Scenario Outline", "Scenario Template", "Scenario", "Example"]
+            [(self.name_t + self.step_t + self.tables.len() + usize::from(self.tag_mode)) % 4];
+        s += &format!("{ind}{kw}: n {}\n", TEMPLATES[self.name_t]);
         s += &format!("{ind}  Given s {}\n", TEMPLATES[self.step_t]);
         if let Some(d) = self.doc_t {
             s += &format!("{ind}    \"\"\"\n{ind}    doc {}\n{ind}    \"\"\"\n", TEMPLATES[d]);
@@ -71,7 +75,7 @@ impl Case {
                     _ => format!("{ind}  @t{i}\n"),
                 };
             }
-            s += &format!("{ind}  Examples:\n");
+            s += &format!("{ind}  {}:\n", if (i + self.name_t) % 2 == 0 { "Examples" } else { "Scenarios" });
             if t.cols.is_empty() {
                 // an `Examples:` block without any table
                 continue;
